@@ -1002,7 +1002,12 @@ def run_other(req):
         on = {n: n for n in VR.nodes}
         oe = {e: e for e in VR.edges}
     # --- exactly the expected survivors, in the original order, with their members and attributes
-    kn, keep = _other_expected(req, V0, prefer=set(on.values()))
+    try:
+        prefer = set(on.values())
+    except TypeError:      # a recorded "old label" that is not even hashable is no ID of the source
+        bad("old-label-not-an-id", f"{what}: recorded labels {list(on.values())!r}"[:300])
+        return req, snap, fails
+    kn, keep = _other_expected(req, V0, prefer=prefer)
     got_n, got_e = [on[n] for n in VR.nodes], [oe[e] for e in VR.edges]
     same = lambda x, y: list(map(repr, x)) == list(map(repr, y))
     if not same(got_n, kn):
